@@ -292,3 +292,198 @@ class C19OneToOne(Monitor):
 
 ALL = {'C01': C01Chain, 'C03': C03Validated, 'C08': C08Passive,
        'C19': C19OneToOne}
+
+
+class WOwnership(Monitor):
+    """C19/C15: integration branches deleted (and integration PRs declined)
+    by a job belong to the PR the job is about, or to PRs merged by it."""
+    name = 'wown'
+
+    def __init__(self, tag='C19'):
+        self.tag = tag
+
+    def after_job(self, hist, res, step):
+        w = hist.world
+        jn = type(res.job).__name__
+        out = []
+        job_src = None
+        if jn == 'PullRequestJob':
+            pid = res.job.pull_request.id
+            if pid in w.prs:
+                job_src = w.prs[pid]['src']
+            else:
+                for i, a, s, d, st in w.all_prs():
+                    if i == pid and s.startswith('w/'):
+                        job_src = s.split('/', 2)[2]
+        elif jn == 'CommitJob':
+            # a commit event is an event on the PR of the branch(es) whose
+            # tip it is (lowest PR id when several)
+            cands = set()
+            for n, sha in res.heads0.items():
+                if sha.startswith(res.job.commit[:12]):
+                    cands.add(n.split('/', 2)[2] if n.startswith('w/')
+                              else n)
+            prs_ = sorted(p for p, inf in w.prs.items()
+                          if inf['src'] in cands)
+            if prs_:
+                job_src = w.prs[prs_[0]]['src']
+        deleted = [ref[len(H):] for tx in res.txs for a, old, new, ref in tx
+                   if a == 'berte' and new == Z40 and
+                   ref.startswith(H + 'w/')]
+        for name in deleted:
+            feature = name.split('/', 2)[2]
+            if feature == job_src:
+                hist.count('w_deleted_own')
+                continue
+            # merged by this job?
+            merged = False
+            for pid, info in w.prs.items():
+                if info['src'] == feature and info['dst'] in res.heads1 \
+                        and feature in res.heads1 and w.is_ancestor(
+                            res.heads1[feature], res.heads1[info['dst']]):
+                    merged = True
+            if merged:
+                hist.count('w_deleted_merged')
+                continue
+            out.append((
+                '%s: job %s (%s) deleted integration branch %s of another '
+                'pull request' % (self.tag, job_desc(res.job), res.status,
+                                  name),
+                {'monitor': self.tag, 'clause': 'foreign_w_deleted'}))
+        # integration PRs declined by this job
+        st0 = {p[0]: p for p in res.host0['prs']}
+        for p in res.host1['prs']:
+            old = st0.get(p[0])
+            if old and old[4] == 'OPEN' and p[4] == 'DECLINED' and \
+                    p[1] == ROBOT:
+                feature = p[2].split('/', 2)[2] if p[2].startswith('w/') \
+                    else None
+                if feature != job_src:
+                    out.append((
+                        '%s: job %s (%s) declined integration PR #%d (%s) '
+                        'of another pull request' %
+                        (self.tag, job_desc(res.job), res.status, p[0], p[2]),
+                        {'monitor': self.tag,
+                         'clause': 'foreign_child_declined'}))
+                else:
+                    hist.count('child_declined_own')
+        # declined parent => its w/ branches and open children are gone
+        if jn == 'PullRequestJob' and res.status == 'PullRequestDeclined' \
+                and job_src:
+            left = [n for n in res.heads1 if n.startswith('w/') and
+                    n.split('/', 2)[2] == job_src]
+            open_children = [p for p in res.host1['prs'] if p[1] == ROBOT and
+                             p[4] == 'OPEN' and p[2].startswith('w/') and
+                             p[2].split('/', 2)[2] == job_src]
+            hist.count('decline_cleanup_checked')
+            hist.flags.add('decline_cleanup')
+            if left or open_children:
+                out.append((
+                    '%s: after declining, integration branches %s / open '
+                    'integration PRs %s remain' %
+                    (self.tag, left, [p[0] for p in open_children]),
+                    {'monitor': self.tag, 'clause': 'decline_incomplete'}))
+        # merged parent => its w/ branches are gone
+        if res.status in ('SuccessMessage', 'Merged'):
+            for pid, info in w.prs.items():
+                f = info['src']
+                if f in res.heads1 and info['dst'] in res.heads1 and \
+                        w.is_ancestor(res.heads1[f],
+                                      res.heads1[info['dst']]):
+                    left = [n for n in res.heads1 if n.startswith('w/') and
+                            n.split('/', 2)[2] == f]
+                    was = [n for n in res.heads0 if n.startswith('w/') and
+                           n.split('/', 2)[2] == f]
+                    if was:
+                        hist.count('merge_cleanup_checked')
+                        hist.flags.add('merge_cleanup')
+                    if left and was:
+                        out.append((
+                            '%s: pull request #%d was merged by job %s but '
+                            'its integration branches %s remain' %
+                            (self.tag, pid, job_desc(res.job), left),
+                            {'monitor': self.tag,
+                             'clause': 'merge_cleanup_incomplete'}))
+        return out[:2]
+
+
+COMMAND_TEXTS = {
+    '@robot help': 'help', '@robot status': 'status', '@robot reset': 'reset',
+    '/reset': 'reset', '@robot force_reset': 'force_reset',
+    '@robot build': 'build', '/help': 'help', '/status': 'status',
+    '/force_reset': 'force_reset',
+}
+
+
+class C10NoSpam(Monitor):
+    """No identical robot message twice in a row; a command comment runs at
+    most once (executions counted by wrapping the registered handlers)."""
+    name = 'C10'
+    _wrapped = False
+    executions = []   # (pr_id, command key)
+
+    @classmethod
+    def wrap_handlers(cls):
+        if cls._wrapped:
+            return
+        from bert_e.reactor import Reactor, Command
+        from bert_e.workflow import gitwaterflow  # noqa: registers commands
+        for key, cmd in list(Reactor.get_commands().items()):
+            def make(key, handler):
+                def wrapper(job, *args):
+                    C10NoSpam.executions.append(
+                        (job.pull_request.id, key))
+                    return handler(job, *args)
+                wrapper.__doc__ = handler.__doc__
+                wrapper.__name__ = getattr(handler, '__name__', key)
+                return wrapper
+            Reactor.__callbacks__[key] = Command(
+                make(key, cmd.handler), cmd.help, cmd.privileged,
+                cmd.authored)
+        cls._wrapped = True
+
+    def start(self, hist):
+        self.wrap_handlers()
+        C10NoSpam.executions = []
+        hist.mon_state['c10_exec'] = {}
+
+    def before_job(self, hist, job, step):
+        C10NoSpam.executions = []
+
+    def after_job(self, hist, res, step):
+        w = hist.world
+        out = []
+        counts = hist.mon_state['c10_exec']
+        for pid, key in C10NoSpam.executions:
+            counts[(pid, key)] = counts.get((pid, key), 0) + 1
+            hist.count('command_executed')
+            hist.flags.add('c10_command')
+        C10NoSpam.executions = []
+        for (pid, key), n in sorted(counts.items()):
+            posted = sum(1 for _, user, text in w.comments(pid)
+                         if user != ROBOT and
+                         COMMAND_TEXTS.get(text.strip()) == key)
+            # comments may have been deleted since: count what was ever
+            # posted (harness log) instead
+            posted = max(posted, hist.mon_state.get('c10_posted', {}).get(
+                (pid, key), 0))
+            if n > posted:
+                out.append((
+                    'C10: command %r executed %d times on PR #%d but only %d '
+                    'such comment(s) were ever posted' % (key, n, pid,
+                                                          posted),
+                    {'monitor': 'C10', 'clause': 'command_executed_again',
+                     'command': key}))
+                break
+        for pid in [p[0] for p in res.host1['prs']]:
+            cs = w.comments(pid)
+            for (i1, u1, t1), (i2, u2, t2) in zip(cs, cs[1:]):
+                if u1 == ROBOT and u2 == ROBOT and t1 == t2:
+                    out.append((
+                        'C10: the same message was posted twice in a row on '
+                        'PR #%d after job %s: %r' %
+                        (pid, job_desc(res.job), t1[:80]),
+                        {'monitor': 'C10', 'clause': 'same_message_twice',
+                         'title': t1.strip().splitlines()[0][:40]}))
+                    break
+        return out[:2]
